@@ -27,12 +27,18 @@ META = {
 FAMILIES = ("plain", "explicit", "pykw")
 
 
-def family_param_lists(fam, nmax):
+def family_param_lists(fam, nmax, quick=False):
     if fam == "plain":
-        return list(G.plain_param_lists(nmax))
+        return list(G.plain_param_lists(nmax, earlier="prev" if quick else "all"))
     if fam == "explicit":
         return list(G.EXPLICIT_PARAM_LISTS)
     return list(G.PYKW_PARAM_LISTS)
+
+
+def call_list(params, quick):
+    if quick:
+        return list(G.calls_for(params, max_pos=4, seqs=G.QUICK_SEQS, empty_map=False))
+    return list(G.calls_for(params))
 
 
 def names_of(params):
@@ -89,14 +95,14 @@ def _script_python(sig, call):
 
 
 def shard(arg) -> core.Part:
-    fam, names, lo, hi, inline_k = arg
+    fam, names, lo, hi, inline_k, quick = arg
     npairs = ninline = 0
     import jinja2
 
     p = core.Part()
-    plists = [pl for pl in family_param_lists(fam, 4) if names_of(pl) == names]
+    plists = [pl for pl in family_param_lists(fam, 4, quick) if names_of(pl) == names]
     sigs = list(G.signatures(plists))
-    calls = list(G.calls_for(plists[0]))[lo:hi]
+    calls = call_list(plists[0], quick)[lo:hi]
     env = jinja2.Environment()
     mods = []
     for sig in sigs:
@@ -175,19 +181,19 @@ def plan(quick):
     groups = []
     for fam in FAMILIES:
         seen = []
-        for pl in family_param_lists(fam, nmax):
+        for pl in family_param_lists(fam, nmax, quick):
             ns = names_of(pl)
             if ns not in seen:
                 seen.append(ns)
                 groups.append((fam, ns, pl))
     for fam, ns, pl in groups:
-        ncalls = sum(1 for _ in G.calls_for(pl))
-        nsig = sum(1 for q in family_param_lists(fam, nmax) if names_of(q) == ns) * 12
+        ncalls = len(call_list(pl, quick))
+        nsig = sum(1 for q in family_param_lists(fam, nmax, quick) if names_of(q) == ns) * 12
         inline_k = 1 if len(ns) <= 1 else (151 if quick else 61)
         # aim at shards of comparable work: calls x signatures
         per = max(8, int(100000 / max(1, nsig)))
         for lo in range(0, ncalls, per):
-            shards.append((fam, ns, lo, min(ncalls, lo + per), inline_k))
+            shards.append((fam, ns, lo, min(ncalls, lo + per), inline_k, quick))
     return nmax, shards
 
 
